@@ -1,6 +1,7 @@
 """C05 - line-number programs execute to the rows the DWARF state machine prescribes."""
 from symx.api import H
 from spec import enc
+from harness import c04 as C4
 from spec import lineprog as LPR
 from harness.dwarfkit import mk_dwarfinfo
 
@@ -601,6 +602,9 @@ HARNESSES = [
     H('h5_3_seq', h_seq, _seq_instances, expect=('ok',),
       desc='whole programs (0-5 instructions, symbolic operands, symbolic header scalars) through the real header parser: rows equal the fold of the '
            'reference step; end_sequence resets; define_file extends the file table; unknown extended opcodes skipped by length; two programs per section'),
+    H('h5_5_unit_parameters', C4.h_ref_sig8, lambda tier: [c for c in C4.HARNESSES_BY_NAME['h4_6_ref_sig8'].instances(tier) if 'addrs' in c], expect=('ok',),
+      desc='the decoding parameters a unit (compile or type unit) hands to its line program - DWARF format and address size, which size DW_LNE_set_address - are '
+           'those of its own header, not the defaults of the file (harness shared with C04)'),
     H('h5_4_for_cu', h_for_cu, lambda tier: [dict(little=l, addr=a, ver=v, cu_fmt64=f) for (l, a) in ((True, 8), (False, 4)) for v in (2, 3, 4, 5) for f in (False, True)] +
                                               [dict(little=l, addr=a, ver=v, lver=lv, cu_fmt64=f) for (l, a, f) in ((True, 8, False), (False, 4, True)) for v, lv in ((4, 5), (5, 4), (5, 2), (5, 3), (3, 5), (2, 4))], expect=('ok',),
       desc='line_program_for_CU returns the program at the (symbolic) DW_AT_stmt_list offset; second request returns the same object'),
